@@ -114,6 +114,13 @@ pub struct Sys {
     /// how the application treats TALK requests: 0 respond at once, 1 drop at once, 2 mixed with holds
     pub talk_policy: u8,
     exempt_seen: u64,
+    /// C17: every PONG delivered to the node under test: (time, voter, address reported, voter was
+    /// a connected outgoing table entry at the previous quiescent point)
+    votes: Vec<(Duration, Id, SocketAddr, bool)>,
+    enr_prev: Option<Enr>,
+    pub vote_min: usize,
+    pub vote_duration: Duration,
+    pub address_updates: u64,
 }
 
 fn table_ids(t: &[(Id, Enr, bool, bool)]) -> Vec<(Id, Vec<u8>)> {
@@ -142,6 +149,11 @@ impl Sys {
             max_nodes_response,
             talk_policy: 2,
             exempt_seen: 0,
+            votes: Vec::new(),
+            enr_prev: None,
+            vote_min: 10,
+            vote_duration: Duration::from_secs(300),
+            address_updates: 0,
         }
     }
 
@@ -411,6 +423,75 @@ impl Sys {
                 self.talk[idx].acted = now;
             }
         }
+
+        // ---- C17: votes and address changes ----
+        if let Some(inj) = self.w.last_injected.clone() {
+            if let (Some(i), Some(RefMessage::Pong { ip, port, .. })) = (inj.node, inj.tag.msg.clone()) {
+                let addr = match ip.len() {
+                    4 => Some(SocketAddr::new(std::net::IpAddr::V4(std::net::Ipv4Addr::new(ip[0], ip[1], ip[2], ip[3])), port)),
+                    16 => {
+                        let mut b = [0u8; 16];
+                        b.copy_from_slice(&ip);
+                        Some(SocketAddr::new(std::net::IpAddr::V6(std::net::Ipv6Addr::from(b)), port))
+                    }
+                    _ => None,
+                };
+                if let Some(addr) = addr {
+                    let nid = self.w.id(i);
+                    let eligible = self.table_prev.iter().any(|(id, _, connected, incoming)| *id == nid && *connected && !*incoming);
+                    self.votes.push((now, nid, addr, eligible));
+                }
+            }
+        }
+        let enr_now = self.w.discv5.local_enr();
+        if let Some(prev) = self.enr_prev.clone() {
+            let before = prev.udp4_socket().map(SocketAddr::V4);
+            let after = enr_now.udp4_socket().map(SocketAddr::V4);
+            if before != after {
+                self.address_updates += 1;
+                rep.count("sys_address_updates");
+                match after {
+                    None => self.flag(rep, Focus::C17, "C17:address-removed-by-pong", "the UDP address disappeared from the local record".into(), json!({})),
+                    Some(a) => {
+                        // latest vote of every voter that was eligible when it voted
+                        let mut latest: HashMap<Id, (Duration, SocketAddr)> = HashMap::new();
+                        for (t, v, addr, eligible) in &self.votes {
+                            if *eligible && !addr.is_ipv6() {
+                                latest.insert(*v, (*t, *addr));
+                            }
+                        }
+                        let alive = |t: &Duration| *t + self.vote_duration > now;
+                        let support = latest.values().filter(|(t, x)| *x == a && alive(t)).count();
+                        let log: Vec<String> = self.votes.iter().rev().take(12).map(|(t, v, x, e)| format!("{:?} {} votes {x} eligible={e}", t, hx(&v[..4]))).collect();
+                        if support < self.vote_min {
+                            self.flag(rep, Focus::C17, "C17:update-below-minimum", format!("the address changed to {a} backed by {support} current votes of eligible peers, the minimum is {}", self.vote_min), json!({"votes": log}));
+                        }
+                        let mut rivals: HashMap<SocketAddr, usize> = HashMap::new();
+                        for (t, x) in latest.values() {
+                            if *x != a && alive(t) {
+                                *rivals.entry(*x).or_default() += 1;
+                            }
+                        }
+                        for (b, n) in &rivals {
+                            if *n > 0 && *n >= ((support as f64) * 0.7).round() as usize {
+                                self.flag(rep, Focus::C17, "C17:update-without-clear-majority", format!("the address changed to {a} ({support} votes) although rival {b} has {n} current votes"), json!({"votes": log}));
+                            }
+                        }
+                        if enr_now.seq() <= prev.seq() {
+                            self.flag(rep, Focus::C17, "C17:seq-not-increased", "the record changed without a higher sequence number".into(), json!({}));
+                        }
+                        if !enr_now.verify() {
+                            self.flag(rep, Focus::C17, "C17:record-signature-invalid", "the updated record does not verify".into(), json!({}));
+                        }
+                        let announced = self.w.events.iter().rev().take_while(|(t, _)| *t >= now).any(|(_, e)| matches!(e, EvSum::SocketUpdated(x) if *x == a));
+                        if !announced {
+                            self.flag(rep, Focus::C17, "C17:update-not-announced", "the address change was not announced as an event".into(), json!({}));
+                        }
+                    }
+                }
+            }
+        }
+        self.enr_prev = Some(enr_now);
 
         // ---- C13: exempt addresses are addresses this node is waiting for ----
         if let Some(ex) = self.w.wire.expected_responses() {
@@ -1388,6 +1469,107 @@ pub fn run_lookups(p: &crate::util::Params, focus: Focus, tag: u64, quick: u64, 
 }
 
 /* ---------------------------------------------------------------------------------------- */
+/* C17 on the full stack: the external address follows the PONGs of real exchanges             */
+
+pub fn votes(seed: u64, rep: &mut Report) {
+    let rt = runtime(seed);
+    rt.block_on(async {
+        let mut rng = Rng::new(seed ^ 0x0717);
+        let min = 2 + rng.usize(5);
+        let vote_duration = Duration::from_secs(*rng.pick(&[20u64, 300]));
+        let ping = *rng.pick(&[5u64, 9]);
+        let cfg = WorldCfg {
+            stack: Stack3::V4,
+            victim_enr_has_addr: rng.bool(),
+            request_timeout: Duration::from_millis(500),
+            request_retries: 1,
+            tweak: Box::new(move |b| {
+                b.enr_peer_update_min(min);
+                b.vote_duration(vote_duration);
+                b.ping_interval(Duration::from_secs(ping));
+                b.auto_nat_listen_duration(None);
+            }),
+        };
+        let mut s = Sys::start(seed, Focus::C17, cfg, 16).await;
+        s.vote_min = min;
+        s.vote_duration = vote_duration;
+        s.talk_policy = 0;
+        let n = min + rng.usize(9);
+        let spec = NetSpec { n, silent: rng.usize(2), mismatched: 0, no_addr: 0, v6: 0 };
+        let all = build_net(&mut s, &spec);
+        // liars: fewer than the minimum most of the time, sometimes enough to win
+        let liars = if rng.chance(1, 4) { rng.usize(n + 1) } else { rng.usize(min) };
+        let lie_a = v4(198, 51, 100, 7, 30303);
+        let lie_b = v4(203, 0, 113, 9, 30303);
+        let together = rng.bool();
+        for (k, i) in all.iter().enumerate().take(liars) {
+            s.w.nodes[*i].b.pong_addr = Some(if together || k % 2 == 0 { lie_a } else { lie_b });
+        }
+        if rng.chance(1, 3) {
+            s.w.faults = Faults3 { drop: rng.below(150), dup: rng.below(80), delay: rng.below(100) };
+        }
+        // Only peers this node dialled itself count as voters, and a node added by the user keeps
+        // the direction "incoming": start from one or two added nodes and let lookups find (and
+        // dial) the rest.
+        for i in all.iter().rev().take(1 + rng.usize(2)) {
+            s.add_enr(*i);
+        }
+        // outgoing sessions come from the node's own lookups; incoming ones from the peers
+        let rounds = 2 + rng.usize(4);
+        for _ in 0..rounds {
+            match rng.below(4) {
+                0 | 1 => {
+                    let t: Id = rng.array();
+                    s.api_find_node(t);
+                }
+                2 => {
+                    let i = *rng.pick(&all);
+                    if !s.w.nodes[i].b.silent {
+                        let seq = s.w.nodes[i].sim.ident.enr.seq();
+                        s.w.node_request(i, RefMessage::Ping { id: vec![], enr_seq: seq });
+                    }
+                }
+                _ => {
+                    // a liar changes its story
+                    if liars > 0 {
+                        let i = all[rng.usize(liars)];
+                        s.w.nodes[i].b.pong_addr = Some(*rng.pick(&[lie_a, lie_b, VICTIM_V4]));
+                    }
+                }
+            }
+            let d = Duration::from_secs(1 + rng.below(2 * ping + 3));
+            s.advance(d, rep).await;
+        }
+        s.w.faults = Faults3::default();
+        s.settle_all(Duration::from_secs(12), rep).await;
+        s.finish(rep);
+        if std::env::var("DV5_TRACE").is_ok() {
+            eprintln!("{}", serde_json::to_string_pretty(&s.w.dump(100000)).unwrap());
+        }
+        let eligible_votes = s.votes.iter().filter(|v| v.3).count();
+        rep.evaluations += 1;
+        rep.count("sys_vote_scenarios");
+        rep.count_n("sys_votes_delivered", s.votes.len() as u64);
+        rep.count_n("sys_votes_of_eligible_peers", eligible_votes as u64);
+        if liars > 0 && liars < min {
+            rep.count("sys_vote_scenarios_with_fewer_liars_than_minimum");
+        }
+        rep.fingerprint(&("sys-votes", min, liars.min(8), s.address_updates.min(4), together, vote_duration.as_secs()));
+        if rep.want_sample() && s.address_updates > 0 {
+            rep.sample(json!({"scenario_seed": seed.to_string(), "kind": "system-votes", "minimum": min, "nodes": n, "liars": liars, "address_updates": s.address_updates, "votes_delivered": s.votes.len(), "final_address": s.w.discv5.local_enr().udp4_socket().map(|a| a.to_string())}));
+        }
+    });
+}
+
+pub fn run_votes(p: &crate::util::Params, tag: u64, quick: u64, thorough: u64, rep: &mut Report) {
+    let n = p.budget(quick, thorough);
+    for i in 0..n {
+        let seed = p.shard_seed(tag + i);
+        crate::util::guarded(rep, seed, |rep| votes(seed, rep));
+    }
+}
+
+/* ---------------------------------------------------------------------------------------- */
 /* replay                                                                                    */
 
 pub fn replay(r: &Value, rep: &mut Report) -> bool {
@@ -1409,6 +1591,7 @@ pub fn replay(r: &Value, rep: &mut Report) -> bool {
     match focus {
         Focus::C01 => attack(seed, rep),
         Focus::C09 | Focus::C10 => lookup(seed, focus, rep),
+        Focus::C17 => votes(seed, rep),
         _ => mixed(seed, focus, rep),
     }
     true
@@ -1440,6 +1623,7 @@ pub fn run_debug(p: &crate::util::Params) -> Report {
         for f in [Focus::C09, Focus::C10] {
             crate::util::guarded(&mut rep, seed, |rep| lookup(seed, f, rep));
         }
+        crate::util::guarded(&mut rep, seed, |rep| votes(seed, rep));
     }
     rep
 }
